@@ -442,7 +442,12 @@ class Summariser:
         helper's guards and events recorded one level deeper.  Returns [(state, value term)] or None when the call is not of that kind."""
         M = self.model
         f = call.func if isinstance(call, ast.Call) else None
-        if not (isinstance(f, ast.Attribute) and isinstance(f.value, ast.Name)) or st.depth >= self.inline_depth or not self.self_cls:
+        if f is None or st.depth >= self.inline_depth:
+            return None
+        if isinstance(f, ast.Name) and f.id.startswith("_") and f.id in M.functions and f.id not in st.env and not f.id[1:2].isupper():
+            # a private package-level helper with several exits (straight-line): forked like a class helper
+            return self._multi_inline_fi(M.functions[f.id], call, st, static=True, bound=False)
+        if not (isinstance(f, ast.Attribute) and isinstance(f.value, ast.Name)) or not self.self_cls:
             return None
         meth = f.attr
         if meth.startswith("_emit") or meth.startswith("_compile") or meth in self.POSITIONAL or meth.startswith("__"):
@@ -453,14 +458,20 @@ class Summariser:
             fi, bound = M.resolve(self.self_cls, meth), False
         else:
             return None
-        if fi is None or fi.node is self.fi.node or any(isinstance(a, ast.Starred) for a in call.args) or any(k.arg is None for k in call.keywords):
+        if fi is None:
             return None
         static = any(isinstance(d, ast.Name) and d.id == "staticmethod" for d in fi.node.decorator_list)
         if not static and not bound:
             return None
-        nrets = sum(isinstance(n, ast.Return) for n in ast.walk(fi.node))
-        if nrets < 2 or any(isinstance(n, (ast.For, ast.While, ast.Try, ast.With)) for n in ast.walk(fi.node)):
+        return self._multi_inline_fi(fi, call, st, static=static, bound=bound)
+
+    def _multi_inline_fi(self, fi, call, st, static, bound):
+        if fi.node is self.fi.node or any(isinstance(a, ast.Starred) for a in call.args) or any(k.arg is None for k in call.keywords):
+            return None
+        if any(isinstance(n, (ast.For, ast.While, ast.Try, ast.With)) for n in ast.walk(fi.node)):
             return None        # only straight-line helpers (branches and comprehensions); anything with loops or handlers stays a call
+        if not any(isinstance(n, (ast.If, ast.IfExp, ast.BoolOp, ast.Raise)) for n in ast.walk(fi.node)):
+            return None        # a helper without branches is inlined by the ordinary (single-exit) route
         probe = st.fork()
         args = [self.expr(a, probe) for a in call.args]
         kws = [(k.arg, self.expr(k.value, probe)) for k in call.keywords]
@@ -1281,7 +1292,7 @@ class Summariser:
             fi = M.functions[name]
             if name[:1].isupper():
                 return ("ctor", name, args, kws)
-            if any(self.is_stream(a) or self.is_ctx(a) for a in args) or any(self.is_stream(v) or self.is_ctx(v) for _, v in kws):
+            if name.startswith("_") or any(self.is_stream(a) or self.is_ctx(a) for a in args) or any(self.is_stream(v) or self.is_ctx(v) for _, v in kws):
                 # a package-level helper that is handed a stream or a context (a new sibling of stream_read / stream_write, a scope factory):
                 # looked into, so that what it does with them is seen at the call site; helpers with several exits stay opaque calls
                 r = self.inline(fi, args, kws, node, st)
@@ -1326,6 +1337,12 @@ class Summariser:
             t = ("newstream", "BytesIO", st.tick("newstream"), args, kws)
             self.emit(st, "NEWSTREAM", {"cls": "BytesIO", "args": args, "kw": kws, "res": t}, node)
             return t
+        if base[0] == "free" and base[1] in M.classes and M.is_subclass(base[1], "Construct") and M.resolve(base[1], meth) is not None and \
+                any(isinstance(d, ast.Name) and d.id == "staticmethod" for d in M.resolve(base[1], meth).node.decorator_list):
+            # Cls.helper(...) for a static helper of a package class: looked into like self.helper(...)
+            r = self.inline(M.resolve(base[1], meth), args, kws, node, st)
+            if r is not None:
+                return r
         if base == ("free", "BytesIOWithOffsets") and "BytesIOWithOffsets" in M.classes and M.resolve("BytesIOWithOffsets", meth) is not None:
             # the factory helpers of the substream class (from_reading and any sibling): inlined, so that the offset they compute is visible
             r = self.inline(M.resolve("BytesIOWithOffsets", meth), args, kws, node, st)
